@@ -90,6 +90,9 @@ theorem asCompleteBody_eq (self_ : Loc → Loc) (l : Loc)
     rw [map_congr_mem (fun u hu => h u (by
       have := Loc.size_le_sizeList hu
       simp only [Loc.size]; omega))]
+  | compl l =>
+    simp only [Gen.asCompleteBody, Loc.asComplete]
+    rw [h l (by simp only [Loc.size]; omega)]
   | _ => simp only [Gen.asCompleteBody, Loc.asComplete]
 
 /-- `asComplete` as location.go defines it now is the model's `Loc.asComplete`: for every location and
@@ -101,10 +104,10 @@ theorem asComplete_eq : ∀ (fuel : Nat) (l : Loc), Loc.size l ≤ fuel →
     simp only [Gen.asComplete]
     exact asCompleteBody_eq _ l (fun l' hlt => asComplete_eq fuel l' (by omega))
 
--- non-vacuity: partial flags are cleared at every depth of join / order, not under a complement
+-- non-vacuity: partial flags are cleared at every depth of join / order and (repair e43d5f2) under a complement
 example : Gen.asComplete 6 (.joined [.ranged 3 9 true false, .ordered [.ranged 1 2 false true],
       .compl (.ranged 5 6 true true)]) =
-    .joined [.ranged 3 9 false false, .ordered [.ranged 1 2 false false], .compl (.ranged 5 6 true true)] := by
+    .joined [.ranged 3 9 false false, .ordered [.ranged 1 2 false false], .compl (.ranged 5 6 false false)] := by
   rfl
 example : Loc.size (.joined [.ranged 3 9 true false, .ordered [.ranged 1 2 false true],
       .compl (.ranged 5 6 true true)]) = 6 := by decide
